@@ -282,10 +282,17 @@ fn variant_struct_name(goenv: &GlobalGoEnv, enum_name: &str, variant_name: &str)
             }
         }
     }
-    if count > 1 {
-        format!("{}_{}", go_ident(enum_name), go_ident(variant_name))
+    // A variant may also be named like a type (`enum Paint { Color(Color) }`,
+    // `enum Token { Token(string) }`): both would be declared under one Go name.
+    let go_name = go_ident(variant_name);
+    let names_a_type = goenv.enums().any(|(name, _)| go_ident(&name.0) == go_name)
+        || goenv
+            .structs()
+            .any(|(name, _)| go_ident(&name.0) == go_name);
+    if count > 1 || names_a_type {
+        format!("{}_{}", go_ident(enum_name), go_name)
     } else {
-        go_ident(variant_name)
+        go_name
     }
 }
 
